@@ -38,6 +38,7 @@ Judge ==
   /\ Clause("NoEscape", NoEscape)
   /\ Clause("NoExpansion", NoExpansion)
   /\ Clause("NoFetch", NoFetch)
+  /\ Clause("OneResponse", OneResponse)
   /\ Clause("Outcome", Outcome)
   /\ Clause("OutcomeAllowed", FoldAgrees)
   /\ Clause("RejectIsNoop", RejectIsNoop)
@@ -57,7 +58,10 @@ TraceInit ==
        /\ validated = a.validated
        /\ changed = ~a.state_same
        /\ flags = [escaped |-> a.escaped # "none", spin |-> (a.spin \/ a.timeout), unbounded |-> a.unbounded_read,
-                   expanded |-> a.expanded, fetched |-> (a.resolver_calls > 0 \/ a.socket_attempts > 0)]
+                   expanded |-> a.expanded, fetched |-> (a.resolver_calls > 0 \/ a.socket_attempts > 0),
+                   \* (only a request whose framing is exact is ONE request for the server)
+                   again |-> (a.extra_response /\ rec.case.via = "handler" /\ rec.case.method = "POST"
+                              /\ rec.case.framing \in {"cl_exact", "chunked_ok"})]
   /\ Judge
 
 TraceSpec == TraceInit /\ [][UNCHANGED <<vars, tid>>]_<<vars, tid>>
